@@ -115,6 +115,8 @@ pub struct Gate {
     pub tid: std::sync::atomic::AtomicI64,
     /// number of freezes the owner has left
     thaws: AtomicU64,
+    /// lock / park sites the owner reached
+    pub lock_sites: AtomicU64,
 }
 impl Gate {
     pub fn new() -> std::sync::Arc<Gate> {
@@ -131,6 +133,7 @@ impl Gate {
             steps: AtomicU64::new(0),
             tid: std::sync::atomic::AtomicI64::new(0),
             thaws: AtomicU64::new(0),
+            lock_sites: AtomicU64::new(0),
         })
     }
     pub fn arm_step(&self, step: u64) {
@@ -191,6 +194,9 @@ impl Gate {
     }
     fn on_site(&self, site: u32, a: usize) {
         let n = self.steps.fetch_add(1, Ordering::Relaxed) + 1;
+        if is_lock_site(site) {
+            self.lock_sites.fetch_add(1, Ordering::Relaxed);
+        }
         let mut stop = n == self.at_step.load(Ordering::Relaxed);
         if !stop {
             let fs = self.at_site.load(Ordering::Relaxed);
